@@ -30,7 +30,7 @@ LEVEL = "proof"
 LEAN = ["SaVerif.Props.C04"]
 META = {
     "text": "Lean theorems over ALL statements (any number/order of text, bind and post-compile segments, any names/values): under the NoPattern guard the regex scan of _process_positional recovers exactly the bind segments in order (positional_alignment), _process_numeric numbers every placeholder with the index of its own name in positiontup (numeric_alignment), expanding-IN expansion keeps every later placeholder aligned (expanding_alignment: loop-invariant proof over _process_parameters_for_postcompile for qmark/format under the NoClash freshness guard), and each style delivers to every placeholder the value of the bind it stands for (delivery theorems); the guard is shown necessary by proved counterexamples (F2 identifier `%(id)s`; escaped-name collision). The model is tied to compiler.py/default.py by a translator (templates, regex sources, escape table) and by differential runs: scanner vs CPython re, compiled.string/positiontup and cursor-level (statement, parameters) vs model on SQLite for all six paramstyles. The property itself is checked on the real code by two independent oracles (placeholder substitution vs literal_binds rendering on 16 dialect/driver configurations; row equality across the six paramstyles on SQLite).",
-    "note": "Trusted: Lean kernel; CPython re semantics (modelled as scanners, differential-tested each run); PEP 249 placeholder grammar of non-SQLite drivers (never connected; format/pyformat are executed on SQLite through a `stmt % params` emulation); literal rendering of ints/strings (C05); tuple-valued expanding parameters, bind processors and insertmanyvalues batch rewriting are outside the Lean model (covered by the row oracle only). Known findings: two names escaping to the same string are bound to one value (named/pyformat) or assert (positional); identifier matching %(name)s is rewritten (F2).",
+    "note": "Trusted: Lean kernel; CPython re semantics (modelled as scanners, differential-tested each run); PEP 249 placeholder grammar of non-SQLite drivers (never connected; format/pyformat are executed on SQLite through a `stmt % params` emulation); literal rendering of ints/strings (C05); tuple-valued expanding parameters, bind processors and insertmanyvalues batch rewriting are outside the Lean model (covered by the row oracle only: typed expanding-IN stream with TypeDecorator element types, scalar and tuple_ forms, escaped names, four pysqlite paramstyles; a later bind after a tuple IN is not row-comparable under pysqlite's numeric styles, which bind :N by order of appearance). Known findings: two names escaping to the same string are bound to one value (named/pyformat) or assert (positional); identifier matching %(name)s is rewritten (F2).",
     "technique": "Lean 4 induction over segment lists for regex-scanner round trips + refinement of the positional/numeric/post-compile pipeline; regenerated tables; differential correspondence; independent substitution/row oracles",
     "design_ref": "DESIGN.md §3 C04",
 }
